@@ -489,9 +489,7 @@ pub trait BackendTransaction {
                             */
                             IdList::Indexed(r)
                         }
-                        (IdList::Indexed(ia), IdList::Partial(ib))
-                        | (IdList::Partial(ia), IdList::Indexed(ib))
-                        | (IdList::Partial(ia), IdList::Partial(ib)) => {
+                        (IdList::Partial(ia), IdList::Indexed(ib)) => {
                             let r = ia.andnot(ib);
                             // DO trigger threshold on partials, because we have to apply the filter
                             // test anyway, so we may as well shortcut at this point.
@@ -502,11 +500,7 @@ pub trait BackendTransaction {
                                 IdList::Partial(r)
                             }
                         }
-                        (IdList::Indexed(ia), IdList::PartialThreshold(ib))
-                        | (IdList::PartialThreshold(ia), IdList::Indexed(ib))
-                        | (IdList::PartialThreshold(ia), IdList::PartialThreshold(ib))
-                        | (IdList::PartialThreshold(ia), IdList::Partial(ib))
-                        | (IdList::Partial(ia), IdList::PartialThreshold(ib)) => {
+                        (IdList::PartialThreshold(ia), IdList::Indexed(ib)) => {
                             let r = ia.andnot(ib);
                             // DO trigger threshold on partials, because we have to apply the filter
                             // test anyway, so we may as well shortcut at this point.
@@ -516,6 +510,19 @@ pub trait BackendTransaction {
                             } else {
                                 IdList::PartialThreshold(r)
                             }
+                        }
+                        // The excluded term only resolved to a superset of the entries it
+                        // matches (partial index). Removing that superset would also remove
+                        // entries that do NOT match the excluded term, and the filter test can
+                        // never bring them back. Keep the candidates and let the filter test
+                        // apply the exclusion.
+                        (IdList::Indexed(ia), IdList::Partial(_))
+                        | (IdList::Partial(ia), IdList::Partial(_))
+                        | (IdList::Indexed(ia), IdList::PartialThreshold(_))
+                        | (IdList::Partial(ia), IdList::PartialThreshold(_)) => IdList::Partial(ia),
+                        (IdList::PartialThreshold(ia), IdList::PartialThreshold(_))
+                        | (IdList::PartialThreshold(ia), IdList::Partial(_)) => {
+                            IdList::PartialThreshold(ia)
                         }
 
                         (IdList::Indexed(_), IdList::AllIds)
